@@ -282,14 +282,14 @@ pub(crate) mod verif_keyring {
     }
 
     // ---------------------------------------------------------------- the parser
-    pub const PK_A: &str = "PAAAAAAAAAAAAAAAAAAAAAAAAAAAAAAAAAAAAAAAAAAAAAAA"; // 48 chars: decodes (E-B64) to the harness's 36 bytes
-    pub const PK_B: &str = "PBAAAAAAAAAAAAAAAAAAAAAAAAAAAAAAAAAAAAAAAAAAAAAA";
+    pub const PK_A: &str = "P"; // any non-token string decodes (E-B64 model) to the harness's 36 bytes
+    pub const PK_B: &str = "Q";
 
     fn name_text(name: &[u8], n: usize) -> String {
         // the text serialize_key() writes for one key without a private key line
-        let mut t = String::from("[Key]\nName = ");
+        let mut t = String::from("[Key]\nName=");
         t.push_str(unsafe { core::str::from_utf8_unchecked(&name[..n]) });
-        t.push_str("\nPublicKey = ");
+        t.push_str("\nPublicKey=");
         t.push_str(PK_A);
         t.push('\n');
         t
@@ -330,11 +330,11 @@ pub(crate) mod verif_keyring {
     }
     /// C17(2): names accepted by key generation (no TAB) round-trip through the parser.
     #[kani::proof]
-    #[kani::unwind(70)]
+    #[kani::unwind(20)]
     pub fn c17_name_roundtrip() { name_roundtrip(false, 2); }
     /// Known finding F4: a name containing a TAB does not round-trip (the parser deletes every TAB). Fully concrete input.
     #[kani::proof]
-    #[kani::unwind(70)]
+    #[kani::unwind(20)]
     pub fn c17_name_roundtrip_tab() {
         unsafe { ct_codecs::kani_model::ATT_LEN = 36; }
         let name = *b"a\tb";
@@ -350,7 +350,7 @@ pub(crate) mod verif_keyring {
     /// in order. (a) two sections with SYMBOLIC one-byte names and symbolic choice of public keys: accepted iff names
     /// differ and keys differ; (b) ten concrete section shapes, run one after the other.
     #[kani::proof]
-    #[kani::unwind(70)]
+    #[kani::unwind(20)]
     pub fn c17_sections() {
         unsafe { ct_codecs::kani_model::ATT_LEN = 36; }
         // (a)
@@ -373,19 +373,19 @@ pub(crate) mod verif_keyring {
 
     /// C17(1b): ten concrete section shapes, run one after the other (concrete inputs: the parser is executed, not solved).
     #[kani::proof]
-    #[kani::unwind(70)]
+    #[kani::unwind(20)]
     pub fn c17_shapes() {
         unsafe { ct_codecs::kani_model::ATT_LEN = 36; }
         let shapes: [(&str, bool, usize); 10] = [
-            ("[Key]\n[Key]\nName = a\nPublicKey = PAAAAAAAAAAAAAAAAAAAAAAAAAAAAAAAAAAAAAAAAAAAAAAA\n", false, 0), // empty first section
-            ("[Key]\nName = a\nPublicKey = PAAAAAAAAAAAAAAAAAAAAAAAAAAAAAAAAAAAAAAAAAAAAAAA\n[Key]\n", false, 0), // empty last section
-            ("Name = a\n[Key]\nPublicKey = PAAAAAAAAAAAAAAAAAAAAAAAAAAAAAAAAAAAAAAAAAAAAAAA\n", false, 0),       // field outside a section
+            ("[Key]\n[Key]\nName = a\nPublicKey = P\n", false, 0), // empty first section
+            ("[Key]\nName = a\nPublicKey = P\n[Key]\n", false, 0), // empty last section
+            ("Name = a\n[Key]\nPublicKey = P\n", false, 0),       // field outside a section
             ("[Key]\nName = a\n", false, 0),                                                                   // no public key
-            ("[Key]\nPublicKey = PAAAAAAAAAAAAAAAAAAAAAAAAAAAAAAAAAAAAAAAAAAAAAAA\n", false, 0),                 // no name
-            ("[Key]\nName = a\nName = b\nPublicKey = PAAAAAAAAAAAAAAAAAAAAAAAAAAAAAAAAAAAAAAAAAAAAAAA\n", false, 0), // field twice
-            ("# c\n\n[Key]\n# c\nName = a\n\nPublicKey = PAAAAAAAAAAAAAAAAAAAAAAAAAAAAAAAAAAAAAAAAAAAAAAA", true, 1),  // comments, blanks, no final newline
-            ("[Key]\nName = a\njunk\nPublicKey = PAAAAAAAAAAAAAAAAAAAAAAAAAAAAAAAAAAAAAAAAAAAAAAA\n", false, 0),   // junk line
-            ("[Key]\nPrivateKey = x\nName = a\nPublicKey = PAAAAAAAAAAAAAAAAAAAAAAAAAAAAAAAAAAAAAAAAAAAAAAA\n", false, 0), // malformed private key
+            ("[Key]\nPublicKey = P\n", false, 0),                 // no name
+            ("[Key]\nName = a\nName = b\nPublicKey = P\n", false, 0), // field twice
+            ("# c\n\n[Key]\n# c\nName = a\n\nPublicKey = P", true, 1),  // comments, blanks, no final newline
+            ("[Key]\nName = a\njunk\nPublicKey = P\n", false, 0),   // junk line
+            ("[Key]\nPrivateKey = x\nName = a\nPublicKey = P\n", false, 0), // malformed private key
             ("", false, 0),                                                                                      // empty file
         ];
         let mut i = 0;
@@ -400,8 +400,8 @@ pub(crate) mod verif_keyring {
     }
     fn format_two(n1: &str, p1: &str, n2: &str, p2: &str) -> String {
         let mut t = String::from("[Key]\nName = ");
-        t.push_str(n1); t.push_str("\nPublicKey = "); t.push_str(p1);
-        t.push_str("\n\n[Key]\nName = "); t.push_str(n2); t.push_str("\nPublicKey = "); t.push_str(p2); t.push('\n');
+        t.push_str(n1); t.push_str("\nPublicKey="); t.push_str(p1);
+        t.push_str("\n\n[Key]\nName = "); t.push_str(n2); t.push_str("\nPublicKey="); t.push_str(p2); t.push('\n');
         t
     }
 }
